@@ -66,6 +66,7 @@ type Unit struct {
 	Target   string   // escaping closure: captured variable that is the target tensor of the back edge
 	Implements string // abstract (function-type) contract this closure must satisfy
 	Uses     []string // lemmas assumed in this unit (each is proved separately)
+	Trusted  []Clause // postconditions assumed at call sites but not proved from the body (paper lemmas); always reported
 }
 
 type specParam struct {
@@ -191,7 +192,7 @@ func (p *Program) collectLits(u *Unit, body ast.Node) {
 	})
 }
 
-var clauseRe = regexp.MustCompile(`^(requires|ensures|modifies|loop|takes|public|assumed|bounded|returns|ghost|props|domain|defined|source|target|implements|uses)\b(\[[A-Z0-9,]+\])?\s*(.*)$`)
+var clauseRe = regexp.MustCompile(`^(requires|ensures|modifies|loop|takes|public|assumed|bounded|returns|ghost|props|domain|defined|source|target|implements|uses|trusted)\b(\[[A-Z0-9,]+\])?\s*(.*)$`)
 
 func (p *Program) specErr(where, msg string) {
 	p.SpecErr = append(p.SpecErr, where+": "+msg)
@@ -229,7 +230,7 @@ func (p *Program) parseSpecs(pkg *packages.Package) {
 			first := strings.Fields(t)[0]
 			first = strings.SplitN(first, "[", 2)[0]
 			switch first {
-			case "func", "closure", "abstract", "requires", "ensures", "modifies", "loop", "takes", "public", "assumed", "bounded", "define", "axiom", "returns", "ghost", "props", "domain", "defined", "source", "target", "implements", "uses", "lemma", "predicate":
+			case "func", "closure", "abstract", "requires", "ensures", "modifies", "loop", "takes", "public", "assumed", "bounded", "define", "axiom", "returns", "ghost", "props", "domain", "defined", "source", "target", "implements", "uses", "lemma", "predicate", "trusted":
 				joined = append(joined, line{t, l.where})
 			default:
 				if len(joined) == 0 {
@@ -343,6 +344,10 @@ func (p *Program) parseSpecs(pkg *packages.Package) {
 				case "domain":
 					if c, ok := mk(rest); ok {
 						cur.Domain = append(cur.Domain, c)
+					}
+				case "trusted":
+					if c, ok := mk(rest); ok {
+						cur.Trusted = append(cur.Trusted, c)
 					}
 				case "defined":
 					if c, ok := mk(rest); ok {
